@@ -104,6 +104,8 @@ def check(idx, cfg, R):
              'resolve' if resolve else 'noresolve', 'mapped' if mapped else 'unmapped',
              'override' if override else 'no_override',
              'inner:' + ('constructed' if M.base_of(IT)[0] in ('SEQ', 'SET', 'SEQOF', 'SETOF') or IT[0] == 'TAG' else 'primitive')}
+    if IT[0] == 'TAG' and IT[1] == 'E' and M.base_of(IT)[0] in ('INT', 'BOOL', 'NULL', 'OID', 'REAL', 'ENUM') and codec in ('ber-indef', 'cer'):
+        feats.add('kf:K1')        # the inner value's own encoding carries the recorded stray end-of-octets
     rec = {'cfg': [container, gov, shape, k, mapped, codec, resolve, override], 'inner_T': IT, 'inner_v': iv}
     keyfn = GOV[gov][1]
     true_map = {}
